@@ -240,9 +240,24 @@ def _drive_chunk(args):
     return out
 
 
+def _limit_worker_memory():
+    """Address-space limit for a driving process: a case whose value explodes (towers of
+    powers, shifts by powers) gets a MemoryError there - recorded as out-of-model by
+    ser.call_to_json - instead of the kernel's OOM killer taking the worker."""
+    import resource
+    lim = int(os.environ.get("VERIF_WORKER_MEM_GB", "6")) << 30
+    try:
+        resource.setrlimit(resource.RLIMIT_AS, (lim, lim))
+    except (ValueError, OSError):
+        pass
+
+
 def drive(modname, funcname, cases, extra=None, procs=NCPU, chunk=200):
     """Replay every generated behaviour through the real pymbolic in worker
-    processes (fresh interpreters: spawn), keep order."""
+    processes (fresh interpreters: spawn), keep order.  A worker that dies is a
+    machinery failure (exit 2), never a hang and never a verdict."""
+    import concurrent.futures as cf
+    from concurrent.futures.process import BrokenProcessPool
     chunks = [(modname, funcname, cases[i:i + chunk], extra)
               for i in range(0, len(cases), chunk)]
     if not chunks:
@@ -250,9 +265,13 @@ def drive(modname, funcname, cases, extra=None, procs=NCPU, chunk=200):
     ctx = mp.get_context("spawn")
     out = []
     t0 = time.time()
-    with ctx.Pool(min(procs, len(chunks))) as pool:
-        for part in pool.imap(_drive_chunk, chunks):
-            out.extend(part)
+    try:
+        with cf.ProcessPoolExecutor(min(procs, len(chunks)), mp_context=ctx,
+                                    initializer=_limit_worker_memory) as pool:
+            for part in pool.map(_drive_chunk, chunks):
+                out.extend(part)
+    except BrokenProcessPool as exc:
+        raise MachineryError(f"a driving process of {modname}.{funcname} died ({exc})") from exc
     log(f"  drove {len(cases)} case(s) through {modname}.{funcname} in {time.time() - t0:.1f}s")
     return out
 
